@@ -46,6 +46,18 @@ def gen_program(rng):
                 can_neg = b.startswith(("f", "g")) or (b.startswith("d") and int(b[1:]) < d and not cyclic)
                 lits.append(("\\+" + b) if can_neg and rng.random() < 0.25 else b)
             lines.append("d%d :- %s." % (d, ", ".join(lits)))
+    # textually identical probabilistic statements are independent choices (0.3::a. 0.3::a. gives 0.51):
+    # an exporter that merges equal lines changes the semantics
+    if rng.random() < 0.35:
+        prob_lines = [l for l in lines if "::" in l]
+        if prob_lines:
+            dup = rng.choice(prob_lines)
+            lines.insert(rng.randrange(len(lines) + 1), dup)
+    if rng.random() < 0.25:
+        k = rng.randint(1, 9)
+        lines.append("0.%d::h0 :- f0." % k)
+        lines.append("0.%d::h0 :- f0." % k)
+        lines.append("d0 :- h0.")
     for d in range(nd):
         if rng.random() < 0.7:
             lines.append("query(d%d)." % d)
